@@ -106,7 +106,7 @@ async fn one_config(ctx: &Ctx, out: &mut Outcome, ci: usize, l1: usize, l2: Opti
     let nreaders = 1 + (hash_str(&format!("{}{}", ci, ctx.seed)) % 16) as usize;
     let per_reader = reads / nreaders as u64;
     let violations: Arc<Mutex<Vec<(String, String, serde_json::Value)>>> = Arc::new(Mutex::new(vec![]));
-    let stats: Arc<Mutex<(u64, u64, u64, u64, Vec<u64>, u64)>> = Arc::new(Mutex::new((0, 0, 0, 0, vec![], 0))); // whole, ranged, conditional, missing, nontrivial hashes
+    let stats: Arc<Mutex<(u64, u64, u64, u64, Vec<u64>, u64, u64)>> = Arc::new(Mutex::new((0, 0, 0, 0, vec![], 0, 0))); // whole, ranged, conditional, missing, nontrivial hashes
     // writer: keeps adding new objects (write-once)
     let w_inner = inner.clone();
     let w_written = written.clone();
@@ -233,16 +233,53 @@ async fn one_config(ctx: &Ctx, out: &mut Outcome, ci: usize, l1: usize, l2: Opti
                 } else {
                     // conditional / plain get_opts
                     stats.lock().2 += 1;
-                    let o = if rng.chance(1, 2) {
-                        GetOptions { if_none_match: Some("no-such-etag".into()), ..Default::default() }
-                    } else {
-                        GetOptions::default()
-                    };
+                    // preconditions that hold (a tag the object does not have for if-none-match, its real tag for
+                    // if-match, or both) and, for half of them, a range in the same request: the consistent ranged read
+                    let mut o = GetOptions::default();
+                    let (mut lo, mut hi) = (0usize, n);
+                    let mut what = "get_opts";
+                    let cond = rng.below(4);
+                    if cond == 1 || cond == 3 {
+                        o.if_none_match = Some("no-such-etag".into());
+                    }
+                    if cond == 2 || cond == 3 {
+                        match store.head(&loc).await {
+                            Ok(m) if m.e_tag.is_some() => o.if_match = m.e_tag.clone(),
+                            _ => {}
+                        }
+                    }
+                    if cond != 0 {
+                        what = "get_opts(conditional)";
+                    }
+                    if n > 1 && rng.chance(1, 2) {
+                        match rng.below(3) {
+                            0 => {
+                                let a = rng.usize(n);
+                                let b = a + 1 + rng.usize(n - a);
+                                o.range = Some(GetRange::Bounded(a..b));
+                                lo = a;
+                                hi = b;
+                            }
+                            1 => {
+                                let a = rng.usize(n);
+                                o.range = Some(GetRange::Offset(a));
+                                lo = a;
+                            }
+                            _ => {
+                                let k = 1 + rng.usize(n - 1);
+                                o.range = Some(GetRange::Suffix(k));
+                                lo = n - k;
+                            }
+                        }
+                        what = if cond != 0 { "get_opts(conditional+range)" } else { "get_opts(range)" };
+                        stats.lock().6 += if cond != 0 { 1 } else { 0 };
+                    }
+                    let _ = &mut hi;
                     let r = match store.get_opts(&loc, o).await {
                         Ok(g) => g.bytes().await.map_err(|e| e.to_string()),
                         Err(e) => Err(e.to_string()),
                     };
-                    (r, "get_opts", 0, n)
+                    (r, what, lo, hi)
                 };
                 read_before.lock().insert(key.clone());
                 if was_read {
@@ -294,6 +331,7 @@ async fn one_config(ctx: &Ctx, out: &mut Outcome, ci: usize, l1: usize, l2: Opti
     out.count("reads.before_the_object_existed", st.5);
     out.count("reads.ranged", st.1);
     out.count("reads.get_opts", st.2);
+    out.count("reads.get_opts_with_precondition_and_range", st.6);
     out.count("reads.missing_key", st.3);
     for h in st.4 {
         out.nontrivial(h);
